@@ -52,6 +52,9 @@ def make_case(index, rng, tier):
         cfgd["limit_request_fields"] = rng.choice([1, 2, 5, 20, 100])
     if rng.randrange(4):
         cfgd["limit_request_field_size"] = rng.choice([0, 12, 30, 100, 1000, 8190])
+    if rng.randrange(4) == 0:
+        cfgd["proxy_protocol"] = True
+        cfgd["proxy_allow_ips"] = "*"
     L, F, S, maxbuf = eff(cfgd)
     if index % 3 != 0:
         # ---- limits family
@@ -65,8 +68,9 @@ def make_case(index, rng, tier):
         if dim == "count":
             nfields = max(0, F + rng.choice([-1, 0, 1, 2, 10])) if F <= 200 else nfields
         fields = []
+        under = rng.randrange(3) == 0        # names with '_' are dropped by the default header_map but still count
         for i in range(nfields):
-            fields.append(b"X-F%d: v" % i)
+            fields.append((b"X_F%d: v" if under and i % 2 else b"X-F%d: v") % i)
         big = None
         if dim == "size" and S > 0 and nfields > 0:
             want = max(6, S + delta)
@@ -118,6 +122,8 @@ def run(case, choices):
         if body:
             head += b"Content-Length: %d\r\n" % len(body)
         data = head + b"\r\n" + body
+        if cfgd.get("proxy_protocol") and case.get("proxy_line", True):
+            data = b"PROXY TCP4 1.2.3.4 5.6.7.8 11 22\r\n" + data
         nf = len(fields) + (1 if body else 0)
         over = under = True
         why = []
@@ -137,6 +143,8 @@ def run(case, choices):
                     under = False
         must_reject = bool(why)
         must_accept = not why and under
+        if cfgd.get("proxy_protocol") and L > 0 and L < 40:
+            must_accept = False      # the PROXY line itself is read under the request-line limit: outside the statement
         cuts = _cuts(case["seg"], len(data), choices)
         res.faults["segmentation:" + case["seg"]] += 1
         obs, term, sock = observe(cfg, data, cuts)
@@ -164,6 +172,8 @@ def run(case, choices):
         head = b"POST /c HTTP/1.1\r\nHost: h\r\nTransfer-Encoding: chunked\r\n\r\n"
         if st == "request-line":
             data, filler = [b"GET /", b"G", b"GET / HTTP/1.1", b"POST /aa?"][v], b"a"
+            if cfgd.get("proxy_protocol"):
+                data = b"PROXY TCP4 1.2.3.4 5.6.7.8 11 22\r\n" + data
             bounded = L > 0
         elif st == "header-block":
             data, filler = b"GET / HTTP/1.1\r\n", [b"X-a: b\r\n", b"a:\r\n", b"X-Long: " + b"v" * 50 + b"\r\n", b"Cookie: a=b\r\n"][v]
